@@ -292,6 +292,32 @@ def Withdraw (p : Pool) (sigOk : Bool) (wallet : String) (nonce now : Int) (sett
             paid := p1.paid.set wallet ((p1.paid.get wallet).getD 0 + pay)
             store := p1.store.addAccountBalance wallet (-b.credit) }, .ok pay)
 
+/-- `Withdraw` with another request's credit landing *while the settlement is in flight* (`during`: a node and the
+amount an `AddNodeBalance` gives it between the pool's balance read and its deduction).  The deduction uses the
+amount read before the settlement, so what is earned meanwhile stays on the books. -/
+def WithdrawDuring (p : Pool) (sigOk : Bool) (wallet : String) (nonce now : Int) (settleOk : Bool)
+    (during : Option (String × Int)) : Pool × Except PoolErr Int :=
+  match p.payVerify sigOk wallet nonce now with
+  | .error e => (p, .error e)
+  | .ok p1 =>
+    if !p1.cfg.settleEnabled then (p1, .error .withdrawDisabled)
+    else
+      let b := p1.walletBalance wallet
+      let total := b.deposit + b.credit
+      if belowWithdrawMin p1.cfg total then (p1, .error (.withdrawMin total (p1.cfg.withdrawMin.getD 0)))
+      else
+        -- the settlement handler is running: the other request's credit lands now
+        let st := match during with
+          | some (id, amt) => (match p1.store.addNodeBalance id amt with | .ok s' => s' | .error _ => p1.store)
+          | none => p1.store
+        if !settleOk then ({ p1 with store := st }, .error .settleFailed)
+        else
+          let pay := withdrawPay p1.cfg total
+          ({ p1 with
+              deposits := p1.deposits.set wallet 0
+              paid := p1.paid.set wallet ((p1.paid.get wallet).getD 0 + pay)
+              store := st.addAccountBalance wallet (-b.credit) }, .ok pay)
+
 end Pool
 end Vipnode
 
